@@ -50,6 +50,23 @@ Proof.
   - apply satc_ret. lia.
 Qed.
 
+(* hit-aware: a hit at i is found after at most e - i byte loads *)
+Lemma rev_bb_ch fuel : forall s e,
+  e - s < fuel -> e <= length h ->
+  satc (rev_bb p h fuel s e) (fun r c => c <= e - s /\ (forall i, r = Some i -> c + i <= e)).
+Proof.
+  induction fuel as [|f IH]; intros s e Hf He; [lia|]. cbn [rev_bb].
+  destruct (s <? e) eqn:E.
+  - apply Nat.ltb_lt in E.
+    eapply satc_bind. { apply satc_load_eq. lia. }
+    intros v c1 [_ ->].
+    destruct (p (hd 0%N v)).
+    + apply satc_ret. split; [lia|]. intros i Hi. injection Hi as <-. lia.
+    + eapply satc_weaken. { apply (IH s (e - 1)); lia. }
+      cbn beta. intros r c [H1 H2]. split; [lia|]. intros i Hi. specialize (H2 i Hi). lia.
+  - apply satc_ret. split; [lia|]. intros i Hi. discriminate.
+Qed.
+
 Lemma count_bb_c fuel : forall s e acc,
   e - s < fuel -> e <= length h ->
   satc (count_bb p h fuel s e acc) (fun _ c => c <= e - s).
@@ -83,6 +100,10 @@ Qed.
 Theorem rev_bb_cost : forall p h s e, e <= length h ->
   satc (rev_byte_by_byte p h s e) (fun _ c => c <= e - s).
 Proof. intros p h s e He. apply rev_bb_c; [lia|exact He]. Qed.
+
+Theorem rev_bb_cost_hit : forall p h s e, e <= length h ->
+  satc (rev_byte_by_byte p h s e) (fun r c => c <= e - s /\ (forall i, r = Some i -> c + i <= e)).
+Proof. intros p h s e He. apply rev_bb_ch; [lia|exact He]. Qed.
 
 Theorem count_bb_cost : forall p h s e, e <= length h ->
   satc (count_byte_by_byte p h s e) (fun _ c => c <= e - s).
@@ -516,6 +537,171 @@ Proof.
   - apply satc_ret. lia.
 Qed.
 
+(* ---------- rfind_raw, hit-aware: a hit at i costs (|h| - i) / B chunk loads plus a constant ---------- *)
+Lemma search_chunk_rev_ch cur :
+  cur + B <= length h ->
+  satc (search_chunk_rev R B ps h cur) (fun r c => c = 1 /\ (forall i, r = Some i -> i < cur + B)).
+Proof.
+  intros Hc. unfold search_chunk_rev.
+  eapply satc_bind. { apply satc_load_eq. exact Hc. }
+  intros v c1 [-> ->].
+  assert (length (slice h cur B) = B) as Hl by (apply slice_length; exact Hc).
+  rewrite chunk_nz' by exact Hl.
+  destruct (existsb (pany ps) (slice h cur B)) eqn:E.
+  - destruct (last_idx (pany ps) (slice h cur B)) as [i|] eqn:Hi.
+    + eapply satc_bind. { apply satc_lift_eq. apply (mask_last' _ i Hl Hi). }
+      intros o c2 [-> ->]. apply satc_ret. split; [lia|]. intros j Hj. injection Hj as <-.
+      apply last_idx_lt in Hi. lia.
+    + apply first_last_none in Hi. apply existsb_false_first_idx in Hi. congruence.
+  - apply satc_ret. split; [lia|]. intros j Hj. discriminate.
+Qed.
+
+Lemma scan_rev_ch l : forall e,
+  rchunks_at B h e l -> anyc ps (map snd l) = true ->
+  satc (scan_rev R ps l) (fun i c => c = 0 /\ i < e).
+Proof.
+  induction l as [|[off c] r IH]; intros e Hc Ha; [discriminate|].
+  destruct Hc as (He & Hle & -> & Hr).
+  assert (off + B <= length h) as Hob by lia.
+  assert (length (slice h off B) = B) as Hl by (apply slice_length; exact Hob).
+  cbn [map snd anyc existsb] in Ha. cbn [scan_rev].
+  assert (existsb (pany ps) (slice h off B) = true ->
+          satc (o <- lift (m_last R (or_masks R ps (slice h off B)));; ret (off + o))
+               (fun i c => c = 0 /\ i < e)) as Hhit.
+  { intros E. destruct (last_idx (pany ps) (slice h off B)) as [i|] eqn:Hi.
+    - eapply satc_bind. { apply satc_lift_eq. apply (mask_last' _ i Hl Hi). }
+      intros o c2 [-> ->]. apply satc_ret. apply last_idx_lt in Hi. lia.
+    - apply first_last_none in Hi. apply existsb_false_first_idx in Hi. congruence. }
+  destruct r as [|c2 r2].
+  - cbn [map existsb] in Ha. rewrite orb_false_r in Ha.
+    eapply satc_bind. { apply satc_guard_eq. rewrite mask_nz' by exact Hl. exact Ha. }
+    intros _ c1 ->. eapply satc_weaken. { apply Hhit. exact Ha. }
+    cbn beta. intros i c [-> Hi]. split; [reflexivity|exact Hi].
+  - rewrite mask_nz' by exact Hl. destruct (existsb (pany ps) (slice h off B)) eqn:E.
+    + apply Hhit. reflexivity.
+    + cbn [orb] in Ha. eapply satc_weaken. { apply (IH off); [exact Hr|exact Ha]. }
+      cbn beta. intros i c [-> Hi]. split; [reflexivity|lia].
+Qed.
+
+Definition ru_post_h (cur : nat) (r : ctl (option nat) nat) (c : nat) : Prop :=
+  match r with
+  | Ret r' => c * B <= cur /\ (forall i, r' = Some i -> c * B + i < cur + U * B)
+  | Go cur' => cur' <= cur /\ c * B + cur' = cur
+  end.
+
+Lemma rev_unrolled_ch fuel : forall cur,
+  cur < fuel -> cur <= length h -> (a + cur) mod B = 0 ->
+  satc (rev_unrolled R B U alf ps a h fuel cur) (ru_post_h cur).
+Proof.
+  induction fuel as [|f IH]; intros cur Hf Hle Hal; [lia|].
+  cbn [rev_unrolled].
+  destruct (U * B <=? cur) eqn:E.
+  - apply Nat.leb_le in E.
+    eapply satc_bind. { apply satc_guard_eq. apply Nat.eqb_eq. exact Hal. }
+    intros _ c0 ->.
+    eapply satc_bind. { apply satc_lift_eq. apply psub_ok. exact E. }
+    intros cur' c1 [-> ->].
+    pose proof (mod_sub_mul' a B cur U HB E Hal) as Hal'.
+    eapply satc_bind. { apply load_chunks_c. lia. }
+    intros chs c2 (Hc & Hlen & ->).
+    assert (chs <> []) as Hne by (destruct chs; [cbn in Hlen; lia|discriminate]).
+    destruct (all_or_spec' (cur - U * B) chs Hne Hc) as [Eany Elen].
+    rewrite (law_will R B HL) by exact Elen. rewrite Eany.
+    destruct (anyc ps chs) eqn:Ea.
+    + eapply satc_bind.
+      { apply (scan_rev_ch _ cur).
+        - pose proof (rchunks_of_chunks B U h HB HU chs (cur - U * B) Hc) as Hx. rewrite Hlen in Hx.
+          replace (cur - U * B + U * B) with cur in Hx by lia. exact Hx.
+        - rewrite map_rev, <- Hlen, map_snd_combine_offsets. unfold anyc. rewrite existsb_rev. exact Ea. }
+      intros i c3 [-> Hi]. apply satc_ret. cbn [ru_post_h]. split; [lia|].
+      intros j Hj. injection Hj as <-. lia.
+    + assert (0 < U * B) by nia.
+      eapply satc_weaken. { apply (IH (cur - U * B)); [lia|lia|exact Hal']. }
+      cbn beta. intros r c Hp. destruct r as [r'|cur']; cbn [ru_post_h] in *.
+      * destruct Hp as [H1 H2]. split; [lia|]. intros i Hi. specialize (H2 i Hi). lia.
+      * lia.
+  - apply satc_ret. cbn [ru_post_h]. lia.
+Qed.
+
+Definition rs_post_h (cur : nat) (r : ctl (option nat) nat) (c : nat) : Prop :=
+  match r with
+  | Ret r' => c * B <= cur /\ (forall i, r' = Some i -> c * B + i < cur + B)
+  | Go cur' => cur' < B /\ c * B + cur' = cur
+  end.
+
+Lemma rev_single_ch fuel : forall cur,
+  cur < fuel -> cur <= length h ->
+  satc (rev_single R B ps h fuel cur) (rs_post_h cur).
+Proof.
+  induction fuel as [|f IH]; intros cur Hf Hle; [lia|].
+  cbn [rev_single].
+  destruct (B <=? cur) eqn:E.
+  - apply Nat.leb_le in E.
+    eapply satc_bind. { apply satc_lift_eq. apply psub_ok. exact E. }
+    intros cur' c0 [-> ->].
+    eapply satc_bind. { apply search_chunk_rev_ch. lia. }
+    intros r c1 [-> Hr].
+    destruct r as [i|].
+    + apply satc_ret. cbn [rs_post_h]. split; [lia|]. intros j Hj. injection Hj as <-.
+      specialize (Hr i eq_refl). lia.
+    + eapply satc_weaken. { apply (IH (cur - B)); lia. }
+      cbn beta. intros r c Hp. destruct r as [r'|cur']; cbn [rs_post_h] in *.
+      * destruct Hp as [H1 H2]. split; [lia|]. intros i Hi. specialize (H2 i Hi). lia.
+      * lia.
+  - apply Nat.leb_gt in E. apply satc_ret. cbn [rs_post_h]. lia.
+Qed.
+
+Theorem gen_rfind_ch :
+  B <= length h ->
+  satc (gen_rfind R B U alf ps a h)
+       (fun r c => c <= length h / B + U + 2 /\ (forall i, r = Some i -> c <= (length h - i) / B + U + 2)).
+Proof.
+  intros HBl. unfold gen_rfind.
+  eapply satc_bind. { apply satc_guard_eq. apply Nat.leb_le. exact HBl. }
+  intros _ c0 ->.
+  eapply satc_bind. { apply satc_lift_eq. apply psub_ok. exact HBl. }
+  intros s0 c1 [-> ->].
+  eapply satc_bind. { apply search_chunk_rev_ch. lia. }
+  intros r ch [-> Hr0].
+  destruct r as [i|].
+  { apply satc_ret. split; [lia|]. intros j Hj. lia. }
+  pose proof (Nat.mod_upper_bound (a + length h) B ltac:(lia)) as Hm.
+  eapply satc_bind. { apply satc_lift_eq. apply psub_ok. lia. }
+  intros cur0 c2 [-> ->].
+  eapply satc_bind. { apply satc_guard_eq. apply Nat.leb_le. lia. }
+  intros _ c3 ->.
+  assert ((a + (length h - (a + length h) mod B)) mod B = 0) as Hal0.
+  { replace (a + (length h - (a + length h) mod B)) with ((a + length h) - (a + length h) mod B) by lia.
+    apply align_down'. exact HB. }
+  eapply satc_bind.
+  { instantiate (1 := ru_post_h (length h - (a + length h) mod B)).
+    destruct (U * B <=? length h) eqn:E.
+    - apply rev_unrolled_ch; [lia|lia|exact Hal0].
+    - apply satc_ret. cbn [ru_post_h]. lia. }
+  intros r1 ca Hca. destruct r1 as [r1|cur1]; cbn [ru_post_h] in Hca.
+  { destruct Hca as [H1 H2]. apply satc_ret. split.
+    - assert (ca <= length h / B) by (apply div_bound0; [exact HB|lia]). lia.
+    - intros i Hi. specialize (H2 i Hi).
+      assert (ca <= (length h - i) / B + U) by (apply div_bound; [exact HB|lia]). lia. }
+  destruct Hca as [Hle1 Hca].
+  eapply satc_bind. { apply rev_single_ch; lia. }
+  intros r2 cb Hcb. destruct r2 as [r2|cur2]; cbn [rs_post_h] in Hcb.
+  { destruct Hcb as [H1 H2]. apply satc_ret. split.
+    - assert (ca + cb <= length h / B) by (apply div_bound0; [exact HB|nia]). lia.
+    - intros i Hi. specialize (H2 i Hi).
+      assert (ca + cb <= (length h - i) / B + 1) by (apply div_bound; [exact HB|nia]). lia. }
+  destruct Hcb as [Hlt2 Hcb].
+  assert (ca + cb <= length h / B) as Hdiv by (apply div_bound0; [exact HB|nia]).
+  destruct (0 <? cur2) eqn:E.
+  - eapply satc_bind. { apply satc_guard_eq. apply Nat.ltb_lt. exact Hlt2. }
+    intros _ c4 ->.
+    eapply satc_weaken. { apply search_chunk_rev_ch. lia. }
+    cbn beta. intros r c [-> Hr]. split; [lia|].
+    intros i Hi. specialize (Hr i Hi).
+    assert (ca + cb <= (length h - i) / B + 1) by (apply div_bound; [exact HB|nia]). lia.
+  - apply satc_ret. split; [lia|]. intros i Hi. discriminate.
+Qed.
+
 End GenericCost.
 
 Theorem gen_find_cost : forall R B U al ps a h, MaskLaws R B -> 0 < B -> 0 < U -> ps <> [] -> B <= length h ->
@@ -526,6 +712,11 @@ Proof. intros. apply gen_find_c; assumption. Qed.
 Theorem gen_rfind_cost : forall R B U al ps a h, MaskLaws R B -> 0 < B -> 0 < U -> ps <> [] -> B <= length h ->
   satc (gen_rfind R B U al ps a h) (fun _ c => c <= length h / B + U + 2).
 Proof. intros. apply gen_rfind_c; assumption. Qed.
+
+Theorem gen_rfind_cost_hit : forall R B U al ps a h, MaskLaws R B -> 0 < B -> 0 < U -> ps <> [] -> B <= length h ->
+  satc (gen_rfind R B U al ps a h)
+       (fun r c => c <= length h / B + U + 2 /\ (forall i, r = Some i -> c <= (length h - i) / B + U + 2)).
+Proof. intros. apply gen_rfind_ch; assumption. Qed.
 
 Theorem gen_count_cost : forall R B U al ps a h, MaskLaws R B -> 0 < B -> 0 < U -> B <= length h ->
   satc (gen_count R B U al ps a h) (fun _ c => c <= length h / B + 2 * B + 2).
@@ -669,6 +860,44 @@ Proof.
   eapply satc_weaken. { apply rev_bb_cost. lia. } cbn beta. intros r c H1. lia.
 Qed.
 
+(* hit-aware: a hit at i is found after at most |h| - i + k + 1 steps *)
+Theorem swar_rfind_ch :
+  satc (swar_rfind W k early needles a h)
+       (fun r c => c <= length h + k + 1 /\ (forall i, r = Some i -> c + i <= length h + k + 1)).
+Proof.
+  unfold swar_rfind.
+  destruct (length h =? 0) eqn:E0.
+  { apply satc_ret. split; [lia|]. intros i Hi. discriminate. }
+  apply Nat.eqb_neq in E0.
+  destruct (length h <? W) eqn:EW.
+  { eapply satc_weaken. { apply rev_bb_cost_hit. lia. }
+    cbn beta. intros r c [H1 H2]. split; [lia|]. intros i Hi. specialize (H2 i Hi). lia. }
+  apply Nat.ltb_ge in EW.
+  eapply satc_bind. { apply satc_lift_eq. apply psub_ok. exact EW. }
+  intros s0 c0 [-> ->].
+  eapply satc_bind. { apply satc_load_eq. lia. }
+  intros v c1 [-> ->].
+  destruct (has_needle W needles (slice h (length h - W) W)).
+  { eapply satc_weaken. { apply rev_bb_cost_hit. lia. }
+    cbn beta. intros r c [H1 H2]. split; [lia|]. intros i Hi. specialize (H2 i Hi). lia. }
+  pose proof (Nat.mod_upper_bound (a + length h) W ltac:(lia)) as Hm.
+  eapply satc_bind. { apply satc_lift_eq. apply psub_ok. lia. }
+  intros cur0 c2 [-> ->].
+  eapply satc_bind. { apply satc_guard_eq. apply Nat.leb_le. lia. }
+  intros _ c3 ->.
+  destruct (early && (length h <=? k * W)).
+  { eapply satc_weaken. { apply rev_bb_cost_hit. lia. }
+    cbn beta. intros r c [H1 H2]. split; [lia|]. intros i Hi. specialize (H2 i Hi). lia. }
+  eapply satc_bind.
+  { apply swar_rev_loop_c; [lia|lia|].
+    replace (a + (length h - (a + length h) mod W)) with ((a + length h) - (a + length h) mod W) by lia.
+    apply align_down'. exact HW. }
+  intros cur cl [Hle Hcl].
+  pose proof (words_le_bytes _ _ _ Hle Hcl) as Hcl'.
+  eapply satc_weaken. { apply rev_bb_cost_hit. lia. }
+  cbn beta. intros r c [H1 H2]. split; [lia|]. intros i Hi. specialize (H2 i Hi). lia.
+Qed.
+
 End SwarCost.
 
 Theorem swar_count_c needles h : satc (swar_count needles h) (fun _ c => c <= length h).
@@ -779,6 +1008,45 @@ Proof.
   - apply Nat.ltb_ge in E1. apply gen_rfind_bound; assumption.
 Qed.
 
+(* hit-aware reverse bound *)
+Definition rfind_bound_h (r : option nat) (c : nat) : Prop :=
+  c <= length h + 6 /\ (forall i, r = Some i -> c <= length h - i + 6).
+
+Lemma bb_rfind_bound_h : satc (rev_byte_by_byte conf h 0 (length h)) rfind_bound_h.
+Proof.
+  eapply satc_weaken. { apply rev_bb_cost_hit. lia. }
+  cbn beta. intros r c [H1 H2]. split; [lia|]. intros i Hi. specialize (H2 i Hi). lia.
+Qed.
+
+Lemma gen_rfind_bound_h R B al : ns <> [] -> MaskLaws R B -> 0 < B -> B <= length h ->
+  satc (gen_rfind R B (unroll_of ns) al (needle_preds ns) a h) rfind_bound_h.
+Proof.
+  intros Hns HL HB Hle. eapply satc_weaken.
+  { apply gen_rfind_cost_hit; [exact HL|exact HB|apply unroll_pos|apply preds_ne; exact Hns|exact Hle]. }
+  cbn beta. intros r c [H1 H2]. pose proof (unroll_le ns) as HU. split.
+  - pose proof (div_le_self (length h) B HB). lia.
+  - intros i Hi. specialize (H2 i Hi). pose proof (div_le_self (length h - i) B HB). lia.
+Qed.
+
+Lemma vec16_rfind_ch R B al : ns <> [] -> MaskLaws R B -> 0 < B ->
+  satc (vec16_rfind ns a h R B al) rfind_bound_h.
+Proof.
+  intros Hns HL HB. unfold vec16_rfind.
+  destruct (length h =? 0). { apply satc_ret. split; [lia|]. intros i Hi. discriminate. }
+  destruct (length h <? B) eqn:E1. { apply bb_rfind_bound_h. }
+  apply Nat.ltb_ge in E1. apply gen_rfind_bound_h; assumption.
+Qed.
+
+Lemma avx2_rfind_ch : ns <> [] -> satc (avx2_rfind ns a h) rfind_bound_h.
+Proof.
+  intros Hns. unfold avx2_rfind. destruct sens_sse2 as [L1 P1]. destruct sens_avx2 as [L2 P2].
+  destruct (length h =? 0). { apply satc_ret. split; [lia|]. intros i Hi. discriminate. }
+  destruct (length h <? avx2_bytes) eqn:E1.
+  - destruct (length h <? sse2_bytes) eqn:E2. { apply bb_rfind_bound_h. }
+    apply Nat.ltb_ge in E2. apply gen_rfind_bound_h; assumption.
+  - apply Nat.ltb_ge in E1. apply gen_rfind_bound_h; assumption.
+Qed.
+
 Definition count_bound (_ : nat) (c : nat) : Prop := c <= length h + 66.
 
 Lemma bb_count_bound : satc (count_byte_by_byte conf h 0 (length h)) count_bound.
@@ -857,6 +1125,27 @@ Proof.
   - apply Hw. destruct sens_simd128. apply vec16_rfind_c; assumption.
 Qed.
 
+(* memrchr, hit-aware: a hit at i is found after at most 2 * (|h| - i) + 16 steps *)
+Theorem backend_rfind_cost_hit : forall b ns a h, ns <> [] ->
+  satc (backend_rfind ns a h b)
+       (fun r c => c <= 2 * length h + 16 /\ (forall i, r = Some i -> c <= 2 * (length h - i) + 16)).
+Proof.
+  intros b ns a h Hns.
+  assert (forall m, satc m (rfind_bound_h h) ->
+          satc m (fun r c => c <= 2 * length h + 16 /\ (forall i, r = Some i -> c <= 2 * (length h - i) + 16))) as Hw.
+  { intros m Hm. eapply satc_weaken; [exact Hm|]. cbn beta. intros r c [H1 H2].
+    split; [lia|]. intros i Hi. specialize (H2 i Hi). lia. }
+  destruct b; cbn [backend_rfind].
+  - pose proof (swar_words_le ns) as [Hk1 Hk2].
+    eapply satc_weaken.
+    { apply swar_rfind_ch; [unfold usize_bytes; lia|exact Hk1]. }
+    cbn beta. intros r c [H1 H2]. split; [lia|]. intros i Hi. specialize (H2 i Hi). lia.
+  - apply Hw. destruct sens_sse2. apply vec16_rfind_ch; assumption.
+  - apply Hw. apply avx2_rfind_ch. exact Hns.
+  - apply Hw. destruct (neon_ok ns). apply vec16_rfind_ch; assumption.
+  - apply Hw. destruct sens_simd128. apply vec16_rfind_ch; assumption.
+Qed.
+
 Theorem backend_count_cost : forall b n a h,
   satc (backend_count [n] a h b) (fun _ c => c <= 2 * length h + 80).
 Proof.
@@ -882,6 +1171,7 @@ Print Assumptions gen_count_cost.
 Print Assumptions backend_find_cost.
 Print Assumptions backend_rfind_cost.
 Print Assumptions backend_count_cost.
+Print Assumptions backend_rfind_cost_hit.
 Print Assumptions swar_find_cost.
 Print Assumptions swar_find_c.
 Print Assumptions swar_rfind_c.
